@@ -6,6 +6,7 @@
 -/
 import AttrsModel.Proofs.C06Top
 import AttrsModel.Properties.C01
+import AttrsModel.Proofs.SrcDefine
 
 namespace Attrs.C06
 open Attrs.Init (Val Conv Event EventId)
@@ -643,5 +644,31 @@ example :
 example : mustReject [] { (k6Witness.classes[0]).flat with frozenArg := true } = true ∧
     mustAccept [] (k6Witness.classes[0]).flat = true := by
   refine ⟨by decide, by decide⟩
+
+/-! ### T1b: `define(...).wrap` as written in /repo's source on this run -/
+
+/-- **C06_source_define_on_setattr**: the body of `define(...).wrap`, translated from the current source
+    (`Gen.define_wrap`, regenerated on every run), hands `attrs(on_setattr=…)` exactly the documented value — the default
+    convert+validate pipe iff the class is mutable, `on_setattr` was not passed and no direct base is frozen; `NO_OP`
+    below a frozen base; the caller's own value otherwise — and raises ValueError iff hooks were passed below a frozen
+    base; for every tuple of bases (any length, the frozen one anywhere) and `auto_attribs` ∈ {None, True, False}. -/
+theorem C06_source_define_on_setattr (env : Py.Env) (ext : Py.Ext) (cls : Py.PV) (o : Src.OnSet) (frozen : Bool) (aa : Option Bool)
+    (bases : List Py.Atom) (fb : Py.Atom → Bool)
+    (h1 : env "on_setattr" = o.pv) (h2 : env "setters.NO_OP" = Src.oNoOp) (h3 : env "_DEFAULT_ON_SETATTR" = Src.oDefault)
+    (h4 : env "_frozen_setattrs" = Src.oFrozenSetattrs) (h5 : env "frozen" = Py.vBool frozen)
+    (h6 : env "auto_attribs" = (match aa with | none => Py.vNone | some b => Py.vBool b))
+    (hb : ext "getattr" [cls, Py.vStr "__bases__"] = .tup bases)
+    (hs : ∀ b, Py.pyIs (ext "getattr" [.a b, Py.vStr "__setattr__"]) Src.oFrozenSetattrs = Py.vBool (fb b)) :
+    Gen.define_wrap env ext cls [] =
+      match Src.defineOnSetattr o frozen (bases.any fb) with
+      | .error e => .error e
+      | .ok s => .ok (Py.vObj 2, Src.defineCalls cls (match aa with | none => Py.vNone | some b => Py.vBool b) s) :=
+  Src.define_wrap_spec env ext cls o frozen aa bases fb h1 h2 h3 h4 h5 h6 hb hs
+
+/-- the documented table itself: default pipe only for (mutable, unset, no frozen base); hooks below a frozen base rejected -/
+theorem C06_define_on_setattr_table (o : Src.OnSet) (frozen fbase : Bool) :
+    (Src.defineOnSetattr o frozen fbase = .ok Src.oDefault ↔ (fbase = false ∧ frozen = false ∧ o = .unset)) ∧
+    (Src.defineOnSetattr o frozen fbase = .error .valueError ↔ (fbase = true ∧ o = .hooks)) := by
+  cases o <;> cases frozen <;> cases fbase <;> simp [Src.defineOnSetattr, Src.OnSet.pv, Src.oDefault, Src.oNoOp, Src.oHooks]
 
 end Attrs.C06
